@@ -8,7 +8,7 @@ extra = [a for a in sys.argv[3:] if not a.startswith('--')]
 wave = next((a.split('=')[1] for a in sys.argv[3:] if a.startswith('--wave=')), '')
 tag = f'{pid}-{wave}-{k}' if wave else f'{pid}-{k}'
 src = f'/tmp/{wave or "wt"}_{pid}/seeded/{k}'
-if not os.path.isdir(src):
+if not os.path.isdir(src) or '--stored' in sys.argv:
     src = f'/verif/seeded/{tag}'
 dst = f'/verif/seeded/{tag}'
 work = tempfile.mkdtemp(prefix='simv_harvest.')
@@ -31,6 +31,10 @@ try:
     ok = ap.returncode == 0 and r0.returncode == 0 and r1.returncode != 0 and ' passed' in t.stdout and 'failed' not in t.stdout
     res['confirmed'] = ok
     det = {}
+    if '--stored' in sys.argv and os.path.exists(os.path.join(dst, 'meta.json')):
+        # keep the record of other properties' checks that also catch it
+        old = json.load(open(os.path.join(dst, 'meta.json')))
+        extra = [c for c in old.get('detected_by', {}) if c != pid and old['detected_by'][c]] + extra
     for c in [pid] + extra:
         e = dict(os.environ, SIMV_REPO=work, SIMV_REPLAY_DIR=os.path.join(work, 'replays'))
         r = sh(f'/verif/check {c} --no-evidence', env=e)
